@@ -189,8 +189,11 @@ Qed.
 
 Section LevelS.
   Variables (C : cfg) (S : schema) (frs : list fragdef).
-  Variables (fuel' g gs : nat) (cs : list pclass).
+  Variables (fuel' g : nat) (cs : list pclass).
   Variable W : ann -> json -> bool.
+  (* ok / strict: the guards required of nested selection sets *)
+  Variable ok : string -> string -> list sel -> bool.
+  Variable strict : string -> list sel -> bool.
   Hypothesis W_opt : forall a j, W (AOpt a) j = is_null j || W a j.
   Hypothesis W_list : forall a j, W (AList a) j = match j with JArr l => forallb (W a) l | _ => false end.
   Hypothesis W_scalar : forall n j, j <> JNull -> W (fst (scalar_ann C n false)) j = true ->
@@ -202,7 +205,7 @@ Section LevelS.
   Hypothesis W_class_obj : forall c j, W (AClass c) j = true -> exists kv, j = JObj kv.
   Hypothesis W_class : forall pub cn2 tn2 sels2 out2 pub2 kv,
       parse_type_def fuel' C S frs pub cn2 tn2 sels2 false [] (Some [tn2]) = Ok (out2, pub2, false) ->
-      sels_ok g true C S frs true tn2 tn2 sels2 = true -> sels_strict gs C S frs true tn2 sels2 = true ->
+      ok tn2 tn2 sels2 = true -> strict tn2 sels2 = true ->
       table_ok cs out2 -> W (AClass cn2) (JObj kv) = true ->
       ev (fun fc => obj_lconf fc S frs tn2 sels2 kv).
 
@@ -213,12 +216,12 @@ Section LevelS.
 
   Definition sub_strict (tn : string) (f : fnode) : bool :=
     match fn_sub f, schema_field_type S tn (fn_name f) with
-    | Some sub, Ok t => sels_strict gs C S frs true (base_name t) sub
+    | Some sub, Ok t => strict (base_name t) sub
     | _, _ => true
     end.
 
   Lemma field_value_rev cn tn tv nested f pf ctx pub0 exc pub1 v :
-    field_ok (sels_ok g true C S frs true) g true S nested tn tn f = true ->
+    field_ok ok g true S nested tn tn f = true ->
     field_strict C S nested tn f = true -> sub_strict tn f = true ->
     tv = (if nested then Some [tn] else None) ->
     field_pf C S frs fuel' cn tn tv f = Ok (pf, ctx) ->
@@ -306,7 +309,7 @@ Section LevelS.
 
   Lemma level_facts_rev cn tn tv nested fns pub pfl extra pub' :
     fields_run (parse_type_def fuel' C S frs) C S frs fuel' cn tn tv fns pub pfl extra pub' false ->
-    forallb (field_ok (sels_ok g true C S frs true) g true S nested tn tn) fns = true ->
+    forallb (field_ok ok g true S nested tn tn) fns = true ->
     forallb (fun f => field_strict C S nested tn f && sub_strict tn f) fns = true ->
     tv = (if nested then Some [tn] else None) -> table_ok cs extra ->
     Forall2 (field_facts_rev tn) fns pfl.
@@ -421,7 +424,8 @@ Proof.
     set (Wa := accepts (Datatypes.S n1) cs (schema_enums S)) in *.
     set (Wc := covers (Datatypes.S n1) cs) in *.
     assert (HF : Forall2 (field_facts_rev C S frs (fun a j => Wa a j && Wc a j) tn) fns pfl).
-    { eapply (level_facts_rev C S frs fuel g' gs' cs); try eassumption.
+    { eapply (level_facts_rev C S frs fuel g' cs (fun a j => Wa a j && Wc a j)
+                              (sels_ok g' true C S frs true) (sels_strict gs' C S frs true)); try eassumption.
       - intros a j. unfold Wa, Wc. simpl. destruct (is_null j); reflexivity.
       - intros a j. unfold Wa, Wc. simpl. destruct j; try reflexivity. apply forallb_andb.
       - intros m j Hnn H. apply andb_true_iff in H as [H _]. unfold Wa in H. cbn [accepts] in H.
